@@ -83,6 +83,19 @@ func simGen(r *rand.Rand, tier string, n int) []*wire.Case {
 		mk("d-ults", s)
 	}
 	{
+		s := base() // a character with two ultimates: needs ult_attack / ult_skill, always aims at the lowest HP
+		s.ckind = []int{4, 0}
+		s.cenergy = []float64{100, 100}
+		s.ehp = []float64{6000, 6000, 6000}
+		s.espd = []float64{60, 61, 62}
+		s.eaction = []int{4, 4, 4}
+		s.progs[0] = "Au5.1.2.2500+Ns.100"
+		s.progs[4] = "Ap.1.1.50"
+		s.ults = "1v100|1w100+2u102|1v5|1u100|2v100|1w3"
+		s.cult = []int{1, 3} // the first character's ultimate hits its primary target
+		mk("d-multi-ult", s)
+	}
+	{
 		s := base() // HP cost kills the actor during its own action
 		s.progs[0] = "Ap.1.1.100+C.100.0+Ap.1.1.100"
 		mk("d-hpcost-death", s)
@@ -289,7 +302,7 @@ func simGen(r *rand.Rand, tier string, n int) []*wire.Case {
 		}
 		var next, dflt []string
 		for c := 0; c < nc; c++ {
-			s.ckind = append(s.ckind, r.Intn(4))
+			s.ckind = append(s.ckind, r.Intn(5))
 			s.cspd = append(s.cspd, pick(r, 0.0, 0, 10, 25.5, 40))
 			s.cenergy = append(s.cenergy, pick(r, 0.0, 50, 90, 100, 120))
 			s.cattack = append(s.cattack, 1+r.Intn(nprogs-1))
@@ -319,7 +332,7 @@ func simGen(r *rand.Rand, tier string, n int) []*wire.Case {
 				}
 				var us []string
 				for j := 0; j < 1+r.Intn(2); j++ {
-					us = append(us, fmt.Sprintf("%d%s%d", 1+r.Intn(nc), pick(r, "u", "u", "u", "a", "v"), pick(r, 100, 101, 102, 1+r.Intn(nc+ne))))
+					us = append(us, fmt.Sprintf("%d%s%d", 1+r.Intn(nc), pick(r, "u", "u", "u", "a", "v", "v", "w"), pick(r, 100, 101, 102, 1+r.Intn(nc+ne))))
 				}
 				calls = append(calls, strings.Join(us, "+"))
 			}
